@@ -9,7 +9,7 @@ ALTS = ['Byte', 'Int16ub', 'Int32ul', 'Const(b"\\x01")', 'Const(b"AB")', 'OneOf(
         'VarInt', 'PascalString(Byte, "ascii")', 'Struct("a"/Byte, "b"/Const(b"\\x07"))', 'Sequence(Byte, Int16ub, OneOf(Byte, [0]))',
         'Prefixed(Byte, Int16ub)', 'Struct("n"/Byte, "d"/Bytes(this.n), Check(this.n < 3))', 'CString("ascii")',
         'Array(2, Int16ub)', 'Struct("x"/Int16ub, "y"/NoneOf(Byte, [255]))', 'Enum(Byte, a=1)', 'Mapping(Byte, {"q": 9})',
-        'FixedSized(2, GreedyBytes)', 'Padded(3, Const(b"Z"))']
+        'FixedSized(2, GreedyBytes)', 'Padded(3, Const(b"Z"))', 'FocusedSeq("x", "x"/Byte, StopIf(this.x == 0))', 'FocusedSeq("x", "x"/Int16ub, StopIf(this.x < 256), Pass)']
 
 
 def iso(src, data, pos, **kw):
@@ -192,6 +192,24 @@ def o_pointer(src, inner, off, data, start):
             return 'Pointer returned %r, the inner construct at the target gives %r' % (r[1], i[1])
     elif r[0] == 'ok':
         return 'Pointer returned %r although the inner construct fails at the target' % (r[1],)
+    # the same contract for the parser compile() generates, and for the same Pointer with its offset taken from the context
+    if i[0] == 'ok':
+        for what, csrc, kw in (('compiled', src, {}), ('compiled, offset from the context', src.replace('Pointer(%d,' % off, 'Pointer(this._params.off,', 1), dict(off=off)),
+                               ('offset from the context', src.replace('Pointer(%d,' % off, 'Pointer(this._params.off,', 1), dict(off=off))):
+            try:
+                cc = C.get(csrc)
+                if what.startswith('compiled'):
+                    cc = cc.compile()
+            except Exception:
+                continue
+            st = io.BytesIO(data)
+            st.seek(start)
+            try:
+                v = cc.parse_stream(st, **kw)
+            except Exception as e:
+                return '%s Pointer raised %s although the inner construct parses at %d' % (what, type(e).__name__, target)
+            if st.tell() != start or not C.peq(v, i[1]):
+                return '%s Pointer returned %r and left the stream at %d; the inner construct at the target gives %r, the start was %d' % (what, v, st.tell(), i[1], start)
     return None
 
 
@@ -332,7 +350,8 @@ def run(tier, seed):
                     cases.append(dict(src='Sequence(%s, Tell)' % src, op='parse', data=d, start=st))
                     checks.append(('select', src, dict(alts=alts, data=d, start=st)))
         elif kind in ('greedy', 'greedy_discard'):
-            elem = rng.choice([a for a in ALTS if 'Padded' not in a] + ['Select(Const(b"\\x01"), Const(b"AB"))', 'Struct("a"/Byte, "e"/If(this.a == 9, Error))',
+            elem = rng.choice([a for a in ALTS if 'Padded' not in a and 'StopIf' not in a] +      # a stop signal ends a range where it stands: the stop_signal oracle
+                               ['Select(Const(b"\\x01"), Const(b"AB"))', 'Struct("a"/Byte, "e"/If(this.a == 9, Error))',
                                'Struct("a"/Byte, "c"/If(this.a > 5, Bytes(this.nokey)))', 'Struct("a"/Byte, "c"/Computed(7 // (this.a - 9)))'])
             disc = kind == 'greedy_discard'
             src = 'GreedyRange(%s%s)' % (elem, ', discard=True' if disc else '')
